@@ -141,6 +141,17 @@ Section C03.
       = pre ++ resolve foldc fx (S ++ merged a) sns t :: post /\ length pre = length (sref foldc fx S a).
   Proof. exact (lookup_after_history foldc). Qed.
 
+  (* schema configurations: a schema used under a namespace prefix -- a single library, or several libraries
+     merged into one tag section (C03_schema_history) -- identifies prefix ++ t as the un-prefixed schema
+     identifies t: same entry (in particular the same '#' child), same value/extension, forms with the prefix *)
+  Theorem C03_namespace_transparent : forall fx T sns t,
+    get_schema_namespace (sns ++ t) = sns -> get_schema_namespace t = [] ->
+    let h := hedtag_init foldc fx T sns (sns ++ t) in
+    let h0 := hedtag_init foldc fx T [] t in
+    ht_entry h = ht_entry h0 /\ ht_ext h = ht_ext h0 /\
+    short_tag h = sns ++ short_tag h0 /\ long_tag h = sns ++ long_tag h0.
+  Proof. exact (namespace_transparent foldc). Qed.
+
   (* reading the forms of a HedTag, or copying it, never changes what later operations and reads give *)
   Theorem C03_tag_reads_invisible : forall T sns ops h,
     trun foldc T sns h ops = trun foldc T sns h (filter mutating ops).
@@ -202,6 +213,7 @@ Print Assumptions C03_long_form_wellformed.
 Print Assumptions C03_print_short_long_reparse.
 Print Assumptions C03_schema_history.
 Print Assumptions C03_lookup_after_history.
+Print Assumptions C03_namespace_transparent.
 Print Assumptions C03_tag_reads_invisible.
 Print Assumptions C03_mutated_tag_reparses.
 Print Assumptions C03_long_short_inverse_before_hash_fix.
